@@ -61,7 +61,9 @@ import (
 // pipe.
 func Decode(r io.Reader, colorTransform *int, budget *membudget.Budget) (io.ReadCloser, error) {
 	pr, pw := io.Pipe()
+	done := make(chan struct{})
 	go func() {
+		defer close(done)
 		bw := bufio.NewWriter(pw)
 		if err := jpeg.DecodeStream(r, colorTransform, bw, budget); err != nil {
 			pw.CloseWithError(err)
@@ -73,5 +75,20 @@ func Decode(r io.Reader, colorTransform *int, budget *membudget.Budget) (io.Read
 		}
 		pw.Close()
 	}()
-	return pr, nil
+	return &reader{PipeReader: pr, done: done}, nil
+}
+
+// reader is the read end of the pipe the decoder writes to.
+type reader struct {
+	*io.PipeReader
+	done chan struct{}
+}
+
+// Close closes the pipe and waits until the decoder has stopped.  After Close
+// returns nothing reads from the source any more, so that the caller can close
+// (and reuse) what the source is built on.
+func (r *reader) Close() error {
+	err := r.PipeReader.Close()
+	<-r.done
+	return err
 }
